@@ -30,3 +30,21 @@ func TestC20NativeDispatchExactUpToWhitespace(t *testing.T) {
 		t.Errorf("matcher registered for %q fired for %q", "ab = :x", in.Expression)
 	}
 }
+
+// C20: a registration never fires for a different table, whatever the table names
+// and expression texts contain (here the old separator of the registration key).
+func TestC20NativeDispatchKeepsTablesApart(t *testing.T) {
+	n := interpreter.NewNativeInterpreter()
+	n.AddMatcher("tab|x", interpreter.ExpressionTypeFilter, "y", func(_, _ map[string]*types.Item) bool { return true })
+	n.AddUpdater("tab|x", "y", func(_, _ map[string]*types.Item) {})
+
+	if _, err := n.Match(interpreter.MatchInput{TableName: "tab", ExpressionType: interpreter.ExpressionTypeFilter, Expression: "x|y"}); err == nil {
+		t.Errorf("matcher registered for table %q and %q fired for table %q and %q", "tab|x", "y", "tab", "x|y")
+	}
+	if err := n.Update(interpreter.UpdateInput{TableName: "tab", Expression: "x|y", Item: map[string]*types.Item{}}); err == nil {
+		t.Errorf("updater registered for table %q and %q ran for table %q and %q", "tab|x", "y", "tab", "x|y")
+	}
+	if _, err := n.Match(interpreter.MatchInput{TableName: "tab|x", ExpressionType: interpreter.ExpressionTypeFilter, Expression: " y "}); err != nil {
+		t.Errorf("the registered matcher did not fire: %v", err)
+	}
+}
